@@ -53,7 +53,11 @@ Step ==
          ELSE /\ deliv' = deliv \cup {<<E[3], E[2], k>>}
               /\ bad' = Chk(<<E[3], E[2], k>> \notin deliv, "DeliveredTwice")
                    \cup Chk(\E s \in subcall : s[1] = E[2] /\ s[3] = k /\ \E p \in pubs : p[1] = E[3] /\ p[2] = s[2], "NotSubscribed")
-                   \cup Chk(IF k = "lifo" THEN E[7][1] = E[3] ELSE E[7][Len(E[7])] = E[3], "WrongEnd")   \* C09: front / back of the queue
+                   \cup Chk(LET sg == (CHOOSE p \in pubs : p[1] = E[3])[2]
+                                 kinds == {s[3] : s \in {x \in subcall : x[1] = E[2] /\ x[2] = sg}}
+                             IN \/ ~(\E p \in pubs : p[1] = E[3])
+                                \/ /\ ("lifo" \in kinds /\ (k = "lifo" \/ "fifo" \notin kinds)) => E[7][1] = E[3]                  \* front of the queue
+                                   /\ ("fifo" \in kinds /\ (k = "fifo" \/ "lifo" \notin kinds)) => E[7][Len(E[7])] = E[3], "WrongEnd")   \* back (C09)
               /\ UNCHANGED <<started, subret, subcall, ineffect, pubs, putk, owed, ndisp>>
     [] E[1] = "disp" ->
          IF E[4] = 0 THEN bad' = {} /\ Same
